@@ -9,7 +9,7 @@ from ..engine import Fail, Stratum
 from .. import exact as X, bridge as B, gen, genbody as GB, permcase as PC, admit as A
 
 ID = "C08"
-USE_WITNESS = True
+WITNESS = ("round",)
 RULE = (
     "for one exact object of each type (Point, Vector, Line, Plane, Segment, HalfLine, ConvexPolygon, "
     "ConvexPolyhedron) a family of 3-6 alternative exact representations is generated: other defining points on "
